@@ -23,8 +23,17 @@ def make(pid, own, proof_files, assumptions, theorem, gen, nontrivial, rule, n_q
             extra(res, rnd, cases)
 
     def replay(dis):
-        c = dis['input']
+        c = dis.get('input')
+        if not (isinstance(c, dict) and 'config' in c and 'events' in c and 'impl_events' in c):
+            # a metamorphic / direct check on /repo: the stored input and both sides are in the replay file
+            print('what :', dis.get('what'))
+            print('input:', str(c)[:3000])
+            print('model/expected:', str(dis.get('model'))[:1500])
+            print('impl :', str(dis.get('impl'))[:1500])
+            return 0
         m = common.model_eval('session', [[sessioncheck.mcfg(c['config']), c['events']]], shards=1)[0]
-        print('differences:', sessioncheck.compare_case(c, m))
-        return 0
+        r = sessioncheck.compare_case(c, m)
+        print('differences:', r)
+        print('REPRODUCED' if r and r != 'oom' else 'not reproduced on the current tree')
+        return 1 if r and r != 'oom' else 0
     return info, run, replay
